@@ -48,27 +48,29 @@ Definition p_q_get : list qinstr :=
     QRecv 4                        (*  3 *);
     QRel (SG 1)                    (*  4 *);
     QRel (SG 0)                    (*  5 *);
-    QJmp 24                        (*  6 *);
+    QJmp 26                        (*  6 *);
     QJz 1 8                        (*  7 *);
     QAcq (SG 1) (FR 1) (FR 0) 7    (*  8 *);
     QJnz 7 11                      (*  9 *);
     QRaise (-5)                    (* 10 *);
-    QJz 1 17                       (* 11 *);
-    QPoll FT 7                     (* 12 *);
-    QJnz 7 16                      (* 13 *);
-    QRel (SG 1)                    (* 14 *);
-    QRaise (-5)                    (* 15 *);
-    QJmp 21                        (* 16 *);
-    QPoll FF 7                     (* 17 *);
-    QJnz 7 21                      (* 18 *);
-    QRel (SG 1)                    (* 19 *);
-    QRaise (-5)                    (* 20 *);
-    QRecv 4                        (* 21 *);
-    QRel (SG 0)                    (* 22 *);
-    QRel (SG 1)                    (* 23 *);
-    QCpy 3 4                       (* 24 *);
-    QJmp 26                        (* 25 *);
-    QRet (RReg 3)                  (* 26 *) ].
+    QJz 1 19                       (* 11 *);
+    QClock 5                       (* 12 *);
+    QJnz 5 16                      (* 13 *);
+    QPoll FT 7                     (* 14 *);
+    QJnz 7 18                      (* 15 *);
+    QRel (SG 1)                    (* 16 *);
+    QRaise (-5)                    (* 17 *);
+    QJmp 23                        (* 18 *);
+    QPoll FF 7                     (* 19 *);
+    QJnz 7 23                      (* 20 *);
+    QRel (SG 1)                    (* 21 *);
+    QRaise (-5)                    (* 22 *);
+    QRecv 4                        (* 23 *);
+    QRel (SG 0)                    (* 24 *);
+    QRel (SG 1)                    (* 25 *);
+    QCpy 3 4                       (* 26 *);
+    QJmp 28                        (* 27 *);
+    QRet (RReg 3)                  (* 28 *) ].
 
 Definition p_feed : list qinstr :=
   [ QAcq (SP 0) FT FF 7            (*  0 *);
@@ -80,10 +82,12 @@ Definition p_feed : list qinstr :=
     QJmp 7                         (*  6 *);
     QRel (SP 0)                    (*  7 *);
     QBufPop 2 0                    (*  8 *);
-    QAcq (SG 2) FT FF 7            (*  9 *);
-    QSend 2                        (* 10 *);
-    QRel (SG 2)                    (* 11 *);
-    QJmp 8                         (* 12 *) ].
+    QDumps 2 14                    (*  9 *);
+    QAcq (SG 2) FT FF 7            (* 10 *);
+    QSend 2                        (* 11 *);
+    QRel (SG 2)                    (* 12 *);
+    QJmp 8                         (* 13 *);
+    QExit                          (* 14 *) ].
 
 Definition p_jq_put : list qinstr :=
   [ QAcq (SG 0) (FR 1) (FR 0) 7    (*  0 *);
